@@ -460,11 +460,24 @@ func Main(pkgNames []string) {
 	}
 }
 
-// FailOrKnown records a failing case: a case matching a known finding is counted and
-// the search continues (returns true); anything else is recorded as a failure.
-func FailOrKnown(e *Env, r *res.Result, f res.Failure) (known bool) {
+// IsKnown reports whether a failing case is covered by a known finding (counted,
+// search continues). Packages built from a saved regression spec of a known finding
+// (findings/specs/<check>/<name>.json) are attributed to that finding by name.
+func IsKnown(p *Pkg, e *Env, r *res.Result, f *res.Failure) bool {
+	if ks, ok := p.Meta["known_spec"].(string); ok && ks != "" {
+		f.Kind = "known-spec:" + ks
+	}
 	if ke := e.Known.MatchKind(f.Property, f.Kind); ke != nil {
 		r.KnownHits[ke.ID]++
+		return true
+	}
+	return false
+}
+
+// FailOrKnown records a failing case: a case matching a known finding is counted and
+// the search continues (returns true); anything else is recorded as a failure.
+func FailOrKnown(p *Pkg, e *Env, r *res.Result, f res.Failure) (known bool) {
+	if IsKnown(p, e, r, &f) {
 		return true
 	}
 	r.Fail(f)
